@@ -188,8 +188,12 @@ def r2_r3(chk, ctx):
     for f, x in splits:
         var = x.targets[0].id if isinstance(x.targets[0], ast.Name) else "?"
         ok = const(x.value.args[0]) == ":"
-        blk = getattr(se.parent(x), "body", [])
-        after = blk[[i for i, y in enumerate(blk) if y is x][0] + 1:][:6] if any(y is x for y in blk) else []
+        after = []
+        par = se.parent(x)
+        for fld in ("body", "orelse", "finalbody"):
+            blk = getattr(par, fld, None)
+            if isinstance(blk, list) and any(y is x for y in blk):
+                after = blk[[i for i, y in enumerate(blk) if y is x][0] + 1:][:6]
         stmts = [norm(s) for s in after if isinstance(s, ast.Assign)]
         ok = ok and "arn = parse_arn(%s[0])" % var in stmts and "arn['resource_type'] = 'stateMachine'" in stmts and "state_machine_arn = create_arn(arn)" in stmts and "name = %s[2]" % var in stmts
         chk.ob("C17.R2", "%s split: rpartition(':') -> parse_arn -> stateMachine -> create_arn; name = last part" % f.qname, ok, "; ".join(stmts)[:200],
